@@ -116,6 +116,11 @@ def handleTxt (args : List String) : String :=
   | ["irt", d] => match parseDate? d with
     | some c => s!"{tohex (instantText c)}|{showE showDate (parseInstant (instantText c))}"
     | none => "BAD"
+  -- the instant parsed from each of its spellings (ISO week date, ISO date) and built from its
+  -- tuple always prints as the ISO date, whatever was parsed or printed before
+  | ["ispell", d] => match parseDate? d with
+    | some c => let t := tohex (instantText c); s!"{t}|{t}|{t}|{t}"
+    | none => "BAD"
   | ["istr", d] => match parseDate? d with
     | some c => tohex (instantText c) | none => "BAD"
   | _ => "BAD"
